@@ -1,6 +1,6 @@
 (* C10 correspondence: how one observed implementation result is compared with the model.
    Used by the generated run/C10/cases_*.v files.  Not part of any theorem. *)
-From Hy Require Import lib.Harness model.C10_Negotiate.
+From Hy Require Import lib.Harness model.C10_Negotiate model.C10_Reuse.
 From Coq Require Import ZArith.
 Local Open Scope N_scope.
 
@@ -35,7 +35,12 @@ Inductive case :=
    Authenticator accepts; observed per request: status 233?, the response header, the controller on the connection
    right after the response; at the end every Authenticate tx and every Connect tx, in order *)
 | CReauth (s : server_cfg) (rqs : list (list (list byte) * bool))
-          (obs : list (bool * list byte * installed)) (auth_txs connect_txs : list N).
+          (obs : list (bool * list byte * installed)) (auth_txs connect_txs : list N)
+(* several real client.NewClient calls, one after the other, on ONE *client.Config, each answered by a bare HTTP/3
+   server with the given Hysteria-CC-RX values; before a handshake the caller may write new limits into the object.
+   Observed per handshake: HandshakeInfo.Tx, the installed controller, the Hysteria-CC-RX the client sent, and
+   the object's MaxTx / MaxRx right after NewClient returned *)
+| CSeq (c : client_cfg) (steps : list seq_step) (obs : list (N * installed * list byte * (N * N))).
 
 Definition inst_eqb (a b : installed) : bool :=
   match a, b with
@@ -61,6 +66,12 @@ Definition reply_eqb (m : reply * installed) (o : bool * list byte * installed) 
   | R233 r => ok && hdr1_eqb (resp_to_header r) hdr
   | RMasq => negb ok
   end.
+
+Definition seq_eqb (m : client_cfg * client_out * list (list byte)) (o : N * installed * list byte * (N * N)) : bool :=
+  let '(c2, co, qh) := m in
+  let '(itx, ci, rh, (tx_after, rx_after)) := o in
+  (co_info_tx co =? itx) && inst_eqb (co_installed co) ci && hdr1_eqb qh rh &&
+  (c_max_tx c2 =? tx_after) && (c_max_rx c2 =? rx_after).
 
 Definition check (c : case) : bool :=
   match c with
@@ -91,6 +102,7 @@ Definition check (c : case) : bool :=
       server_cfg_ok s &&
       (let (st, rps) := serve_run s conn_init rqs in
        all2 reply_eqb rps obs && N_list_eqb (cs_authcalls st) atxs && N_list_eqb (cs_connects st) ctxs)
+  | CSeq c steps obs => all2 seq_eqb (client_seq c steps) obs
   end.
 
 Definition mismatches (l : list case) : list nat := mism_from check 0 l.
